@@ -644,6 +644,11 @@ impl ConnState {
 
     // run pong timeout process - that send timeout aftet some time.
     pub(super) fn run_pong_timeout(&mut self, config: &MainConfig) {
+        // if previous PING is still unanswered then keep its timeout running: replacing
+        // the notifier would cancel that timeout as if PONG has been received.
+        if self.pong_notifier.is_some() {
+            return;
+        }
         let (pong_notifier, pong_receiver) = oneshot::channel();
         self.pong_notifier = Some(pong_notifier);
         tokio::spawn(pong_client_timeout(
